@@ -11,7 +11,8 @@
    Configurations: `cur` is the code as it is now; `old` is the code before the repairs bf317fcd (RemoteJob._from_dict
    restores job_context from the stored body), 13320b52 (JobGroup.add prepares and validates the payload before
    the append, with or without keyword arguments) and 9afb11d4 (_launch_jobs writes once more on leaving its loop,
-   normally or by an exception, iff the jobs differ from what was last written or read). `old` is kept only for the historical `_old_code` witnesses.
+   normally or by an exception, iff the jobs differ from what was last written or read) and 65ec16e2 (get_results
+   does the same on leaving its per-job loop). `old` is kept only for the historical `_old_code` witnesses.
 
    Faithful quirks (each is visible in the Python source):
    * _to_dict stores status None for an unsent job, and no body for a SUCCESS job;
@@ -47,6 +48,8 @@ Definition failed (s : status) : bool := match s with ERROR | CANCELED => true |
 Definition success (s : status) : bool := match s with SUCCESS => true | _ => false end.
 Definition waiting (s : status) : bool := match s with WAITING => true | _ => false end.
 Definition running (s : status) : bool := match s with RUNNING | CANCEL_REQUESTED => true | _ => false end.
+Definition maybe_completed (s : status) : bool :=
+  match s with SUCCESS | ERROR | CANCELED | UNKNOWN => true | _ => false end.
 
 (* ---------------------------------------------------------------- request data *)
 (* a parameter value: None (Python None, "to be filled") or an integer *)
@@ -139,10 +142,12 @@ Definition dummy_pay : payload := mkpay None None 0.
 (* which version of the code *)
 Record cfg := mkcfg { restore_ctx : bool;      (* bf317fcd *)
                       add_validates : bool;    (* 13320b52 *)
-                      write_on_exit : bool }.  (* 9afb11d4 *)
-Definition cur : cfg := mkcfg true true true.
-Definition old : cfg := mkcfg false false false.
-Definition before_9afb11d4 : cfg := mkcfg true true false.
+                      write_on_exit : bool;    (* 9afb11d4 *)
+                      results_write : bool }.  (* 65ec16e2 *)
+Definition cur : cfg := mkcfg true true true true.
+Definition old : cfg := mkcfg false false false false.
+Definition before_9afb11d4 : cfg := mkcfg true true false false.
+Definition before_65ec16e2 : cfg := mkcfg true true true false.
 
 (* JobGroup._build_remote_job + RemoteJob._from_dict *)
 Definition from_disk (c : cfg) (d : djob) : job :=
@@ -174,7 +179,8 @@ Definition pop (sc : script) : answer * script :=
   match sc with [] => (AFatal, []) | a :: t => (a, t) end.
 
 (* what the outside world sees, in order: HTTP requests, and whole-file writes (PersistentData.write_file) *)
-Inductive req := RCreate (b : body) | RRerun (id : option Z) | RStatus (id : option Z) | RWrite.
+Inductive req := RCreate (b : body) | RRerun (id : option Z) | RStatus (id : option Z) | RWrite
+                | RResult (id : option Z).
 
 (* exceptions *)
 Inductive outcome := Returned | Raised (e : Z).
@@ -347,15 +353,16 @@ Proof. repeat decide equality. Defined.
 (* 9afb11d4: `finally: self._write_to_file_if_changed()` around the loop of _launch_jobs — on normal exit and on an
    exception, the group is written once more iff its image differs from what this object last wrote or read (which is
    the file content: only this object writes the file) *)
+(* JobGroup._write_to_file_if_changed, in a `finally` *)
+Definition write_if_changed (r : mach * outcome) : mach * outcome :=
+  let (m, o) := r in
+  match save (mem m) with
+  | None => (m, Raised E_TYPE)
+  | Some d => if djobs_eq_dec d (disk m) then (mkm (mem m) (disk m) (scr m) (rlog m) false, o)
+              else (mkm (mem m) d (scr m) (rlog m ++ [RWrite]) false, o)
+  end.
 Definition finish (c : cfg) (r : mach * outcome) : mach * outcome :=
-  if write_on_exit c then
-    let (m, o) := r in
-    match save (mem m) with
-    | None => (m, Raised E_TYPE)
-    | Some d => if djobs_eq_dec d (disk m) then (m, o)
-                else (mkm (mem m) d (scr m) (rlog m ++ [RWrite]) false, o)
-    end
-  else r.
+  if write_on_exit c then write_if_changed r else r.
 
 Definition launch (c : cfg) (rerun seq repl : bool) (m : mach) : mach * outcome :=
   if rerun then
@@ -381,7 +388,9 @@ Inductive op :=
 | ORun (seq : bool)                                    (* run_parallel / run_sequential *)
 | ORerun (seq repl : bool)                             (* rerun_failed_parallel / rerun_failed_sequential *)
 | OProgress                                            (* progress(), list_successful/active/unsuccessful_jobs() *)
-| OReadd (k : nat).                                    (* group.add(group[k]) for a job of the group that was sent *)
+| OReadd (k : nat)
+| OGetResults                                          (* get_results() *)
+| OTrack.                                              (* track_progress(), when it can terminate *)                                    (* group.add(group[k]) for a job of the group that was sent *)
 
 (* the caller's own job.execute_async() before adding the job *)
 Definition pre_exec (j : job) (sc : script) (lg : list req) : job * script * list req :=
@@ -417,6 +426,74 @@ Definition add_job (c : cfg) (m : mach) (j : job) (kms : option Z) (kbad : bool)
         end
     end.
 
+(* JobGroup.get_results after its refresh pass: for every job that may be completed, RemoteJob.get_results():
+   `self.status` (refreshes an UNKNOWN job from the server — without a write), then the results request. The fake
+   server never has results (`results: null` -> RuntimeError 'Results are not available', swallowed by the group);
+   an HTTP error of either request propagates. *)
+Fixpoint results_loop (pre post : list job) (sc : script) (lg : list req) (dirty : bool)
+  : list job * script * list req * bool * outcome :=
+  match post with
+  | [] => (pre, sc, lg, dirty, Returned)
+  | j :: post' =>
+      if maybe_completed (jst j) then
+        let '(pr, sc1, lg1) := if polls j then (let (r, s) := poll j sc in (r, s, lg ++ [RStatus (jid j)]))
+                               else (PStatus j, sc, lg) in
+        match pr with
+        | PRaise j1 => (pre ++ j1 :: post', sc1, lg1, dirty, Raised E_HTTP)
+        | PStatus j1 =>
+            let dirty1 := dirty || changed j j1 in
+            if maybe_completed (jst j1) then
+              match jid j1 with
+              | None => (pre ++ j1 :: post', sc1, lg1 ++ [RResult None], dirty1, Raised E_HTTP)   (* /result/None : 404 *)
+              | Some i =>
+                  let (a, sc2) := pop sc1 in
+                  let lg2 := lg1 ++ [RResult (Some i)] in
+                  match a with
+                  | AOk _ _ => results_loop (pre ++ [j1]) post' sc2 lg2 dirty1
+                  | _ => (pre ++ j1 :: post', sc2, lg2, dirty1, Raised E_HTTP)
+                  end
+              end
+            else results_loop (pre ++ [j1]) post' sc1 lg1 dirty1     (* RuntimeError 'still running', swallowed *)
+        end
+      else results_loop (pre ++ [j]) post' sc lg dirty
+  end.
+
+(* 65ec16e2: the per-job loop runs under `try/finally: self._write_to_file_if_changed()` *)
+Definition get_results (c : cfg) (m : mach) : mach * outcome :=
+  let '(m1, o) := update_statuses m in
+  match o with
+  | Raised e => (m1, Raised e)
+  | Returned =>
+      let '(l, sc, lg, dy, o2) := results_loop [] (mem m1) (scr m1) (rlog m1) false in
+      let r := (mkm l (disk m1) sc lg dy, o2) in
+      if results_write c then write_if_changed r else r
+  end.
+
+(* JobGroup.track_progress: list_active_jobs() (a refresh pass), then refresh passes until no job counts as
+   waiting/running. A never-sent job counts as waiting for ever (the method would not return): the operation is
+   defined — and called by the driver — only when there is none. Every further pass then polls at least one job,
+   and an exhausted script answers 500, so fuel = S (length script) is never exhausted. *)
+Definition counts_running (l : list job) : bool :=
+  existsb (fun j => negb (success (jst j)) && (waiting (jst j) || running (jst j))) l.
+Fixpoint track_loop (fuel : nat) (m : mach) : mach * outcome :=
+  match fuel with
+  | O => (m, Raised E_HTTP)
+  | S f =>
+      let '(m1, o) := update_statuses m in
+      match o with
+      | Raised e => (m1, Raised e)
+      | Returned => if counts_running (mem m1) then track_loop f m1 else (m1, Returned)
+      end
+  end.
+Definition never_sent_waiting (l : list job) : bool := existsb (fun j => negb (sent j) && waiting (jst j)) l.
+Definition track (m : mach) : mach * outcome :=
+  if never_sent_waiting (mem m) then (m, Returned)
+  else let '(m0, o0) := update_statuses m in
+       match o0 with
+       | Raised e => (m0, Raised e)
+       | Returned => track_loop (S (length (scr m0))) m0
+       end.
+
 Definition step (c : cfg) (m0 : mach) (o : op) : mach * outcome :=
   let m := mkm (mem m0) (disk m0) (scr m0) (rlog m0) false in
   match o with
@@ -427,6 +504,8 @@ Definition step (c : cfg) (m0 : mach) (o : op) : mach * outcome :=
   | ORun seq => launch c false seq false m
   | ORerun seq repl => launch c true seq repl m
   | OProgress => update_statuses m
+  | OGetResults => get_results c m
+  | OTrack => track m
   | OReadd k =>
       match nth_error (mem m) k with
       | Some j => if sent j then add_job c m j None false else (m, Returned)   (* the driver skips unsent jobs *)
@@ -439,6 +518,50 @@ Definition init (sc : script) : mach := mkm [] [] sc [] false.
 
 Fixpoint run (c : cfg) (m : mach) (ops : list op) : mach :=
   match ops with [] => m | o :: r => run c (fst (step c m o)) r end.
+
+(* ---------------------------------------------------------------- several groups: a file store indexed by name *)
+(* PersistentData directory = map name -> file; a live JobGroup object per name (opening a name again replaces the
+   object the history holds for it). An operation on the group of name n reads and writes the file of name n only. *)
+Fixpoint sget {A} (n : Z) (s : list (Z * A)) : option A :=
+  match s with [] => None | (k, v) :: r => if Z.eqb k n then Some v else sget n r end.
+Fixpoint sset {A} (n : Z) (v : A) (s : list (Z * A)) : list (Z * A) :=
+  match s with
+  | [] => [(n, v)]
+  | (k, w) :: r => if Z.eqb k n then (n, v) :: r else (k, w) :: sset n v r
+  end.
+Definition sdel {A} (n : Z) (s : list (Z * A)) : list (Z * A) := filter (fun kv => negb (Z.eqb (fst kv) n)) s.
+
+Record world := mkw { files : list (Z * list djob); handles : list (Z * list job); wscr : script; wlog : list req }.
+
+Inductive mop :=
+| MOpen (n : Z)                 (* g_n = JobGroup(name_n) : load if the file exists, else create and write *)
+| MOn (n : Z) (o : op)          (* an operation on the live object of name n (skipped when there is none) *)
+| MDelete (n : Z)               (* JobGroup.delete_job_group(name_n); the history drops its object for n *)
+| MDeleteAll                    (* JobGroup.delete_all_job_groups() *)
+| MDeleteDate (all : bool).     (* JobGroup.delete_job_groups_date(far future / far past) *)
+
+Definition mstep (c : cfg) (w : world) (o : mop) : world * outcome :=
+  match o with
+  | MOpen n =>
+      match sget n (files w) with
+      | Some d => (mkw (files w) (sset n (load c d) (handles w)) (wscr w) (wlog w), Returned)
+      | None => (mkw (sset n [] (files w)) (sset n [] (handles w)) (wscr w) (wlog w ++ [RWrite]), Returned)
+      end
+  | MOn n o1 =>
+      match sget n (handles w), sget n (files w) with
+      | Some l, Some d =>
+          let '(m', out) := step c (mkm l d (wscr w) (wlog w) false) o1 in
+          (mkw (sset n (disk m') (files w)) (sset n (mem m') (handles w)) (scr m') (rlog m'), out)
+      | _, _ => (w, Returned)
+      end
+  | MDelete n => (mkw (sdel n (files w)) (sdel n (handles w)) (wscr w) (wlog w), Returned)
+  | MDeleteAll => (mkw [] [] (wscr w) (wlog w), Returned)
+  | MDeleteDate all => if all then (mkw [] [] (wscr w) (wlog w), Returned) else (w, Returned)
+  end.
+
+Definition winit (sc : script) : world := mkw [] [] sc [].
+Fixpoint mrun (c : cfg) (w : world) (ops : list mop) : world :=
+  match ops with [] => w | o :: r => mrun c (fst (mstep c w o)) r end.
 
 (* ---------------------------------------------------------------- progress() and list_*_jobs() (after the refresh) *)
 Definition cat_unsent (j : job) : bool := negb (sent j).
